@@ -44,6 +44,14 @@ fn main() {
             r.nontrivial = st.distinct.len() as u64;
             r.write(&out, &cmd, &profile, seed);
         }
+        "grid" => {
+            let mut r = seq::Runner::new();
+            let st = stream::run_grid(&mut r, seed, count);
+            let samples: Vec<String> = st.samples.iter().map(|s| format!("\"{}\"", s)).collect();
+            r.extra = format!(",\"streams\":{},\"cases\":{},\"distinct_streams\":{},\"stream_samples\":[{}]", st.streams, st.cases, st.distinct.len(), samples.join(","));
+            r.nontrivial = st.distinct.len() as u64;
+            r.write(&out, "grid", &profile, seed);
+        }
         "replay" => {
             // re-run literal op lines (a replay file's program, or a corpus entry) on the real code
             let ops = std::fs::read_to_string(get("ops", "")).expect("ops file");
